@@ -239,16 +239,17 @@ def run_reset(prop, res):
 
 # ---- snprintf: bounded writes as a small must-fact dataflow ---------------------------------------------
 class _SnState:
-    __slots__ = ("le1", "eq", "lo")
+    __slots__ = ("le1", "eq", "lo", "z")
 
-    def __init__(self, le1=frozenset(), eq=frozenset(), lo=0):
+    def __init__(self, le1=frozenset(), eq=frozenset(), lo=0, z=frozenset()):
         self.le1, self.eq, self.lo = le1, eq, lo       # vars <= size-1, vars == size, size >= lo   (all must-facts)
+        self.z = z                                     # (var, k): var is 0, or var <= size-1 and size >= k  (result of a room helper)
 
     def key(self):
-        return (self.le1, self.eq, self.lo)
+        return (self.le1, self.eq, self.lo, self.z)
 
     def meet(self, o):
-        return _SnState(self.le1 & o.le1, self.eq & o.eq, min(self.lo, o.lo))
+        return _SnState(self.le1 & o.le1, self.eq & o.eq, min(self.lo, o.lo), self.z & o.z)
 
 
 def _same(a, b):
@@ -264,6 +265,8 @@ class _Snprintf:
         self.fn, self.d, self.summaries, self.prop, self.F, self.stats = fn, did, summaries, prop, F, stats
         self.blocks = sa.blocks_by_id(fn)
         self.ret_le1 = True
+        self.ret_zero = False
+        self.ret_lo = None
         self.nret = 0
         self.seen = set()
 
@@ -300,10 +303,10 @@ class _Snprintf:
                         return "le1"
             return None
         if k == "call" and e.get("callee") in self.summaries:
-            kk = self.summaries[e["callee"]]
+            kk, zlo = self.summaries[e["callee"]]
             a = _strip(e["args"][kk]) if kk < len(e.get("args", [])) else None
             if isinstance(a, dict) and a.get("k") == "var" and a["id"] == self.d:
-                return "le1"
+                return "le1" if zlo is None else ("le1z", zlo)
         return None
 
     def report(self, line, sig, what):
@@ -315,11 +318,14 @@ class _Snprintf:
     def assign(self, var, rhs, st):
         c = self.classify(rhs, st) if rhs is not None else None
         le1, eq = st.le1 - {var}, st.eq - {var}
+        z = frozenset(x for x in st.z if x[0] != var)
         if c == "le1":
             le1 |= {var}
         elif c == "eq":
             eq |= {var}
-        return _SnState(le1, eq, st.lo)
+        elif isinstance(c, tuple) and c[0] == "le1z":
+            z |= {(var, c[1])}
+        return _SnState(le1, eq, st.lo, z)
 
     def elem(self, el, st):
         e, line = el["e"], el["line"]
@@ -374,7 +380,7 @@ class _Snprintf:
             if k == "binop" and n["op"].endswith("=") and n["op"] not in ("==", "!=", "<=", ">="):
                 l = _strip(n["l"])
                 if l.get("k") == "var":
-                    out[0] = _SnState(st.le1 - {l["id"]}, st.eq - {l["id"]}, st.lo)
+                    out[0] = _SnState(st.le1 - {l["id"]}, st.eq - {l["id"]}, st.lo, frozenset(x for x in st.z if x[0] != l["id"]))
                 elif self.is_size(l):
                     keep = n["op"] == "-=" and self.classify(n["r"], st) == "le1"
                     out[0] = _SnState(lo=1 if keep else 0)        # size - n >= 1 when n <= size - 1
@@ -391,7 +397,12 @@ class _Snprintf:
                 return False
             if k == "return":
                 self.nret += 1
-                if not (n.get("e") and self.classify(n["e"], st) == "le1"):
+                rv = _strip(n["e"]) if n.get("e") else None
+                if isinstance(rv, dict) and rv.get("k") == "int" and rv["v"] == 0:
+                    self.ret_zero = True                      # "no room": the caller must test the result before using it as a length
+                elif n.get("e") and self.classify(n["e"], st) == "le1":
+                    self.ret_lo = st.lo if self.ret_lo is None else min(self.ret_lo, st.lo)
+                else:
                     self.ret_le1 = False
                 return False
         sa.walk(e, f)
@@ -407,8 +418,20 @@ class _Snprintf:
         c = _strip(c)
         if not isinstance(c, dict):
             return st
+        # n = room (d, len); if (n != 0) / if (n) / if (n > 0): the helper returned a real length, on a path where it had seen room
+        zc = c
+        nz = None
+        if isinstance(zc, dict) and zc.get("k") == "var":
+            nz = (zc["id"], t)
+        elif isinstance(zc, dict) and zc.get("k") == "binop" and zc["op"] in ("!=", "==", ">") and _strip(zc["r"]).get("k") == "int" \
+                and _strip(zc["r"])["v"] == 0 and _strip(zc["l"]).get("k") == "var":
+            nz = (_strip(zc["l"])["id"], t if zc["op"] in ("!=", ">") else not t)
+        if nz and nz[1]:
+            hit = [x for x in st.z if x[0] == nz[0]]
+            if hit:
+                return _SnState(st.le1 | {nz[0]}, st.eq, max(st.lo, hit[0][1]), st.z - set(hit))
         if self.classify(c, st) == "eq":                         # if (d->size)
-            return _SnState(st.le1, st.eq, max(st.lo, 1)) if t else st
+            return _SnState(st.le1, st.eq, max(st.lo, 1), st.z) if t else st
         if c.get("k") != "binop" or c["op"] not in ("<", ">", "<=", ">=", "==", "!="):
             return st
         l, r, op = c["l"], c["r"], c["op"]
@@ -430,7 +453,7 @@ class _Snprintf:
             lo = max(lo, 1)
         elif op == "==" and not t and v == 0:
             lo = max(lo, 1)
-        return _SnState(st.le1, st.eq, lo)
+        return _SnState(st.le1, st.eq, lo, st.z)
 
     def run(self):
         fn = self.fn
@@ -479,8 +502,8 @@ def snprintf_clause(prop, res):
             if "gmp_snprintf_t" in q.get("ct", ""):
                 a = _Snprintf(f, q["id"], {}, prop, [], collections.Counter())
                 a.run()
-                if a.nret and a.ret_le1:
-                    summaries[f["name"]] = k
+                if a.nret and a.ret_le1 and (a.ret_lo is not None):
+                    summaries[f["name"]] = (k, (a.ret_lo if a.ret_zero else None))
     for fn in dfns:
         if fn["name"] in summaries:
             continue
